@@ -77,6 +77,8 @@ def menu_entry(k):
     if m["kind"] == "driver":
         m.update(n_prop_steps=r.choice([1, 2, 3]), n_ene_blocks=r.choice([1, 2]), n_sr_blocks=r.choice([1, 2]), n_blocks=r.choice([2, 3]), R=r.choice([1, 2, 3]),
                  n_eql=1, n_ene_blocks_eql=1, n_sr_blocks_eql=r.choice([1, 2]), ad_mode=r.choice([None, None, "forward"]), orbital_rotation=False, do_sr=r.choice([True, False]))
+    if m.get("trial_kind") != "multislater":
+        lab.corner_override(m, k, 14)
     return m
 
 
@@ -90,8 +92,12 @@ def gen_cfg(seed, index, tier):
     m["jax_seed"] = rng.randrange(1, 2**20)
     # the library accepts a one-body matrix that is not exactly symmetric and symmetrises it
     m["h1_antisym"] = rng.choice([0.0, 0.0, 0.05]) if m.get("trial_kind") != "multislater" else 0.0
+    # a deep core-like one-body level (dt |h1| of order 1): the two propagators build their one-body half step separately
+    m["core_level"] = random.Random(seed + 43).choice([0.0, 0.0, -30.0]) if m.get("trial_kind") != "multislater" else 0.0
+    if m["core_level"]:
+        m["dt"] = min(m["dt"], 0.05)
     if m["kind"] == "perm":
-        m["spin_dep"] = m["wt"] == "unrestricted" and rng.random() < 0.6
+        m["spin_dep"] = m["wt"] == "unrestricted" and rng.random() < 0.6 and m.get("trial") != "rhf"
     if m["kind"] in ("steps", "perm"):
         ops = []
         nw = m["n_walkers"]
@@ -107,9 +113,13 @@ def gen_cfg(seed, index, tier):
                 rng.shuffle(p)
                 ops.append(["permute", p])
             elif o == "rebatch":
-                ops.append(["rebatch", rng.choice([1, 2, nw])])
+                ops.append(["rebatch", rng.choice([b for b in (1, 2, nw) if nw % b == 0])])
             else:
                 ops.append([o])
+            if m["core_level"] and o in ("step", "tail"):
+                # exp(-dt h1/2) stretches the core direction by e^(15 dt) per step: re-orthonormalise as often as a
+                # real block does, otherwise determinants lose (condition number x eps) and two correct programs differ
+                ops.append(["qr"])
         m["ops"] = ops
     if m["kind"] == "driver":
         for key in ("sched_a", "sched_b"):
@@ -128,7 +138,7 @@ def group_of_index(seed, index, tier):
 def _spec(cfg, wt, n_batch=None):
     return dict(norb=cfg["norb"], nelec=cfg["nelec"], nchol=cfg["nchol"], wt=wt, trial="rhf" if wt == "restricted" else "uhf",
                 n_walkers=cfg["n_walkers"], n_batch=n_batch or cfg["n_batch"], dt=cfg["dt"], n_exp_terms=6,
-                ham_seed=cfg["ham_seed"], strength=cfg["strength"], mix=cfg["mix"], spin_dep=False)
+                ham_seed=cfg["ham_seed"], strength=cfg["strength"], mix=cfg["mix"], spin_dep=False, core_level=cfg.get("core_level", 0.0))
 
 
 def build_pair_multislater(cfg, n_batch=None):
@@ -390,7 +400,7 @@ def _exec_steps(cfg, ctx):
 
 def _perm_spec(cfg, n_batch):
     return dict(norb=cfg["norb"], nelec=cfg["nelec"], nchol=cfg["nchol"], wt=cfg["wt"], trial=cfg["trial"], n_walkers=cfg["n_walkers"], n_batch=n_batch,
-                dt=cfg["dt"], n_exp_terms=6, ham_seed=cfg["ham_seed"], strength=cfg["strength"], mix=cfg["mix"], spin_dep=cfg.get("spin_dep", False))
+                dt=cfg["dt"], n_exp_terms=6, ham_seed=cfg["ham_seed"], strength=cfg["strength"], mix=cfg["mix"], spin_dep=cfg.get("spin_dep", False), core_level=cfg.get("core_level", 0.0))
 
 
 def _take(pd, idx, unres):
@@ -508,7 +518,7 @@ def _exec_perm(cfg, ctx):
             w2[j] = wj
             p2["weights"] = jnp.array(w2)
             p2["overlaps"] = replay.public_calls(x.trial)[0](p2["walkers"], x.wave_data)
-            others = np.array([i for i in range(nw) if i != j])
+            others = np.array([i for i in range(nw) if i != j], dtype=int)
             live = np.asarray(px["weights"])[others] > 0
             sel = others[live]
             site_i = f"{type(x.plain).__name__} / {cfg['trial']} (independence of walkers)"
